@@ -691,7 +691,27 @@ async fn stream_client(exec: Exec, led: Led, listener: SimListener, client: usiz
         let mode = sim::draw("tcp.mode", 3);
         let abort_after = if sim::chance("tcp.abort", 1, 6) { Some(sim::draw("tcp.abort_after", n_reqs as u64 + 1) as u32) } else { None };
         let junk_at = if hostile_ok && sim::chance("tcp.junk", 1, 8) { Some(sim::draw("tcp.junk_at", n_reqs as u64 + 1) as u32) } else { None };
-        let stall_read_ms = if slow_reader { sim::draw("tcp.stall_read_ms", 3) * knobs.write_timeout_ms } else { 0 };
+        // (Not reading at all for a while: nothing, once or twice the write
+        // timeout - or, where that is well below the write timeout, a second
+        // longer than the idle timeout: a connection with responses still to
+        // be written is not idle.)
+        let stall_read_ms = if slow_reader {
+            let k = sim::draw("tcp.stall_read_ms", 4);
+            if k == 3 {
+                if knobs.idle_timeout_ms + 1000 < knobs.write_timeout_ms / 2 {
+                    sim::stat("probe.reader_stalls_past_the_idle_timeout");
+                    knobs.idle_timeout_ms + 1000
+                } else {
+                    0
+                }
+            } else {
+                k * knobs.write_timeout_ms
+            }
+        } else {
+            0
+        };
+        let past_idle_stall = slow_reader && stall_read_ms == knobs.idle_timeout_ms + 1000 && stall_read_ms < knobs.write_timeout_ms;
+        let conn_start_ns = sim::now_ns();
         let first_idx = led.borrow().sent.len();
         let st = Rc::new(RefCell::new(ConnState {
             outstanding: Vec::new(),
@@ -876,6 +896,13 @@ async fn stream_client(exec: Exec, led: Led, listener: SimListener, client: usiz
                 }
                 if slow_reader && stall_read_ms >= knobs.write_timeout_ms {
                     s.excused.get_or_insert("client-stalled-beyond-write-timeout");
+                }
+                // The reader that looks away for longer than the idle timeout
+                // does not see the server close a connection that really was
+                // idle (everything answered); what it sends after that moment
+                // may go nowhere. What was sent before is owed.
+                if past_idle_stall && s.sent_ns > conn_start_ns + knobs.idle_timeout_ms * 1_000_000 {
+                    s.excused.get_or_insert("sent-after-the-connection-may-have-idled-out");
                 }
                 // A tiny receive window turns a large response into many
                 // round trips; with a short write timeout the server may
